@@ -233,7 +233,9 @@ class Recorder:
     and the contraction that absorbs it.  Optionally evaluates the E^dagger H E oracle at every
     time_evolve call."""
 
-    def __init__(self, order=None, H=None, check_heff=False, capture_w=0, wseed=0):
+    def __init__(self, order=None, H=None, check_heff=False, capture_w=0, wseed=0, dt=None):
+        self.dt = dt                    # the time step the CALLER asked for (durations are judged against it, not against
+        #                                 what the object reports afterwards)
         self.capture_w = capture_w      # C05W: number of site calls to snapshot for the diagram-level tie (c05w.py)
         self.wseed = wseed
         self.wrecs = []
@@ -254,10 +256,10 @@ class Recorder:
         if algo is None:
             self.problems.append("time_evolve called before the algorithm object exists")
             return
-        dt = algo.time_step_size
+        dt = self.dt if self.dt is not None else algo.time_step_size
         f2 = 2 * td / dt
         if f2 != round(f2):
-            self.problems.append(f"duration {td!r} is not a multiple of dt/2")
+            self.problems.append(f"duration {td!r} of a local update is not a multiple of half the requested time step dt = {dt!r}")
         f = int(round(f2)) * (1 if forward else -1)
         cp = copy.deepcopy(algo.state)
         psi = np.asarray(psi)
@@ -378,22 +380,52 @@ class Recorder:
         return out
 
 
-def make_algo(kind, sysd, mode=None, svd=None, dt=None, nsteps=1):
+def make_ops(sysd, spec):
+    """operators to be recorded during a run: spec = list of [[node index, ...], seed]; each entry is a tensor product of
+    random matrices on the named nodes (one node: the single-site observable of the usual applications)."""
+    if not spec:
+        return []
+    out = []
+    for sites, seed in spec:
+        nprs = np.random.RandomState(seed)
+        tp = {}
+        for k in sites:
+            d = sysd["dims"][f"n{k}"]
+            a = nprs.standard_normal((d, d)) + 1j * nprs.standard_normal((d, d))
+            tp[f"n{k}"] = a + a.conj().T
+        out.append(util.TensorProduct(tp))
+    return out
+
+
+def make_algo(kind, sysd, mode=None, svd=None, dt=None, nsteps=1, final=None, ops=None):
     dt = sysd.get("dt", DT) if dt is None else dt
-    return util.make_evolution(kind, sysd["ttns"], sysd["ham"], sysd["ttno"], dt, dt * nsteps, [], mode=mode, svd=svd,
-                               builder=bool(sysd.get("builder")))
+    return util.make_evolution(kind, sysd["ttns"], sysd["ham"], sysd["ttno"], dt, dt * nsteps if final is None else final,
+                               ops or [], mode=mode, svd=svd, builder=bool(sysd.get("builder")))
 
 
-def record_run(kind, sysd, nsteps, check_heff=False, mode=None, svd=None, after_step=None, capture_w=0, wseed=0):
-    """Construct the class, run `nsteps` steps; returns the observation dict (JSON-able).
-    after_step(algo, k) may add per-step measurements (returned under 'measure')."""
+def history_steps(history):
+    return sum(1 for a in history if a == "step") if history else None
+
+
+def record_run(kind, sysd, nsteps, check_heff=False, mode=None, svd=None, after_step=None, capture_w=0, wseed=0,
+               history=None, ops=None, tratio=None):
+    """Construct the class and drive it through a HISTORY of public calls; returns the observation dict (JSON-able).
+    history: list of "step" (run_one_time_step), "reset" (reset_to_initial_state), "eval" (evaluate_operators), "run"
+    (the public run(): evaluate, then num_time_steps times step + evaluate); default: nsteps times "step".
+    ops: operator specification (make_ops) recorded by eval / run.  tratio: final_time / time_step_size handed to the
+    constructor (default: the number of steps), e.g. 2.5 or 0.66: the time step does not divide the final time.
+    after_step(algo, k) may add measurements (returned under 'measure': one after the constructor and one after every
+    action, labelled 'at'; 't' = number of steps since the constructor / the last reset)."""
     ob = {"kind": kind}
-    rec = Recorder(order=sysd["ids"], H=sysd["H"], check_heff=check_heff, capture_w=capture_w, wseed=wseed)
+    dt = sysd.get("dt", DT)
+    rec = Recorder(order=sysd["ids"], H=sysd["H"], check_heff=check_heff, capture_w=capture_w, wseed=wseed, dt=dt)
+    history = list(history) if history else ["step"] * nsteps
     with rec:
         t0 = rtree_json(sysd["ttns"])
         ob["t0"] = t0
-        ob["dt"] = sysd.get("dt", DT)
-        algo = make_algo(kind, sysd, mode=mode, svd=svd, nsteps=nsteps)
+        ob["dt"] = dt
+        final = None if tratio is None else dt * tratio
+        algo = make_algo(kind, sysd, mode=mode, svd=svd, nsteps=nsteps, final=final, ops=make_ops(sysd, ops))
         rec.algo = algo
         ob["init_log"] = [list(e) for e in rec.take()]
         ob["ti"] = rec.reinit_trees[-1] if rec.reinit_trees else None
@@ -403,23 +435,82 @@ def record_run(kind, sysd, nsteps, check_heff=False, mode=None, svd=None, after_
         ob["reset_trees"] = []
         ob["centres"] = []
         ob["measure"] = []
-        if after_step is not None:
-            ob["measure"].append(after_step(algo, 0))
-        for k in range(nsteps):
+        ob["between"] = []          # [action, events] of every action that is not a time step
+        ob["reported_dt"] = algo.time_step_size
+        ob["num_time_steps"] = algo.num_time_steps
+        tcount = [0]
+
+        def meas(label):
+            if after_step is not None:
+                m = after_step(algo, len(ob["steps"]))
+                if isinstance(m, dict):
+                    m["at"] = label
+                    m["t"] = tcount[0]
+                ob["measure"].append(m)
+
+        def one_step(step_fn):
+            """returns False when the step raised"""
             try:
-                algo.run_one_time_step()
+                step_fn()
             except Exception as e:  # noqa
                 ob["exception"] = f"{type(e).__name__}: {e}"
                 ob["tb"] = traceback.format_exc()[-1200:]
                 ob["steps"].append([list(e) for e in rec.take()])
-                break
+                return False
             ob["steps"].append([list(e) for e in rec.take()])
             ob["reset_trees"].append(rec.reinit_trees[-1] if rec.reinit_trees else None)
             rec.reinit_trees = []
             c = algo.state.orthogonality_center_id
             ob["centres"].append(None if c is None else nid(c))
-            if after_step is not None:
-                ob["measure"].append(after_step(algo, k + 1))
+            tcount[0] += 1
+            meas(f"step {len(ob['steps'])}")
+            return True
+
+        def other(label, fn):
+            try:
+                fn()
+            except Exception as e:  # noqa
+                if "exception" not in ob:
+                    ob["exception"] = f"{label}: {type(e).__name__}: {e}"
+                    ob["tb"] = traceback.format_exc()[-1200:]
+                ob["between"].append([label, [list(e) for e in rec.take()]])
+                return False
+            ob["between"].append([label, [list(e) for e in rec.take()]])
+            rec.reinit_trees = []
+            meas(f"{label} after step {len(ob['steps'])}")
+            return True
+
+        if after_step is not None:
+            ob["measure"].append(after_step(algo, 0))
+        for act in history:
+            if act == "step":
+                ok = one_step(algo.run_one_time_step)
+            elif act == "reset":
+                def do_reset():
+                    algo.reset_to_initial_state()
+                    tcount[0] = 0
+                ok = other("reset", do_reset)
+            elif act == "eval":
+                ok = other("eval", algo.evaluate_operators)
+            elif act == "run":
+                # the public entry point: cut the log at the step boundaries with an instance-level wrapper that only logs
+                orig = algo.run_one_time_step
+                state = {"ok": True}
+
+                def wrapped(**kw):
+                    ob["between"].append(["eval", [list(e) for e in rec.take()]])
+                    if not one_step(lambda: orig(**kw)):
+                        state["ok"] = False
+                        raise RuntimeError("step failed")
+                algo.run_one_time_step = wrapped
+                try:
+                    ok = other("eval", lambda: algo.run(pgbar=False)) and state["ok"]
+                finally:
+                    del algo.run_one_time_step
+            else:
+                raise ValueError(act)
+            if not ok:
+                break
     ob["max_err"] = rec.max_err
     ob["worst"] = rec.worst
     ob["problems"] = rec.problems[:5]
@@ -516,6 +607,17 @@ def compare_traces(case, ob, mo):
     for k, tr in enumerate(ob.get("reset_trees", [])):
         if tr and parent_map(tr) != parent_map(ob["t0"]):
             return f"step {k + 1}: parent relation changed"
+    # histories: recording observables is not part of the schedule (no event), a reset repeats the constructor's preparation
+    for k, (label, events) in enumerate(ob.get("between", [])):
+        if label == "eval" and events:
+            return f"action {k + 1} (evaluate_operators): schedule-level events {events[:3]} where the model has none"
+        if label == "reset":
+            idx = max([i for i, e in enumerate(events) if e[0] == "reinit"], default=-1)
+            d = first_diff(events[idx + 1:], norm_model_trace(ini))
+            if idx < 0:
+                return "reset_to_initial_state: the environment cache is not re-initialised"
+            if d:
+                return "reset_to_initial_state, cache: " + d
     return None
 
 
@@ -604,12 +706,98 @@ def gen_tree_cases(rng, count, kinds, thorough, extra=None):
     return cases
 
 
+# trees with 8..9 nodes for the history families (an observable several edges away from the sweep's first node, several side
+# branches below one node): kept apart from SPECIAL_TREES, whose members every case family of C05-C07 iterates over
+DEEP_TREES = [
+    [None, 0, 0, 2, 2, 2, 3, 4, 5],     # root with a leaf and a node carrying three arms of length two
+    [None, 0, 1, 2, 3, 4, 5, 6],        # chain with 8 nodes rooted at an end
+    [None, 0, 0, 1, 1, 2, 2, 3],        # binary with one deeper leaf
+    [None, 0, 1, 1, 2, 3, 4, 5],        # single-child root, two arms of length three
+]
+TRATIOS = [0.66, 1.37, 2.5, 3.33, 7.14]      # final_time / time_step_size that is not an integer (and one below 1)
+
+
+def gen_history_cases(rng, count, kinds, base):
+    """HISTORIES of public calls on one object (the property quantifies over histories): time steps, then
+    reset_to_initial_state() and time steps again; observables recorded between the steps (evaluate_operators() by hand or
+    the public run()).  Trees with 4..9 nodes; two thirds of the states have every bond >= 2 (entangled across every edge:
+    a stale or re-gauged environment block is then visible).  Observables: single-site operators on up to three leaves
+    (one of them a leaf furthest from node n0's first leaf) and one two-site product.  A third of the cases is constructed
+    with a final time that is not a multiple of the time step.  `base(rng, j, par)` supplies the property-specific fields."""
+    pool = [p for p in SPECIAL_TREES if len(p) >= 4] + DEEP_TREES
+    cases = []
+    for j in range(count):
+        r = rng.random()
+        par = rng.choice(DEEP_TREES) if r < 0.25 else (random_tree(rng, rng.choice([5, 6, 7, 8, 9])) if r < 0.5 else rng.choice(pool))
+        n = len(par)
+        c = {"par": par, "kind": kinds[j % len(kinds)], "seed": rng.randrange(10 ** 9)}
+        c.update(base(rng, j, par))
+        if j % 3 != 2:
+            c["phys"] = [2] * n if n > 5 else [rng.choice([2, 3]) for _ in range(n)]
+            c["bond"] = rng.choice([2, 2, 3]) if max(degrees(par)) <= 3 or n <= 6 else 2
+        hk = ["reset", "eval", "run"][(j // len(kinds)) % 3]
+        if hk == "reset":
+            a, b = rng.choice([(1, 1), (1, 2), (2, 1)]) if n <= 7 else (1, 1)
+            c["history"] = ["step"] * a + ["reset"] + ["step"] * b
+            if j % 2 == 0:
+                c["tratio"] = rng.choice(TRATIOS)
+        else:
+            leaves = [i for i in range(n) if i not in par]
+            far, _ = far_node(par, leaves[0])
+            sites = sorted(set([far] + rng.sample(leaves, min(2, len(leaves)))))
+            c["ops"] = [[[k], rng.randrange(10 ** 6)] for k in sites] + [[sorted(rng.sample(range(n), 2)), rng.randrange(10 ** 6)]]
+            if hk == "eval":
+                c["history"] = ["eval", "step", "eval", "step"] if n <= 7 else ["eval", "step", "eval"]
+                if j % 2 == 0:
+                    c["tratio"] = rng.choice(TRATIOS)
+            else:
+                c["history"] = ["run"]
+                c["tratio"] = rng.choice([1, 2, 1.37, 2.0625]) if n <= 7 else 1      # run() makes ceil-like(tratio) steps
+        c["nsteps"] = max(1, sum(1 for a in c["history"] if a == "step"))
+        c["wcap"] = 1          # C05W: one sampled call per kind of update is enough here (the base families carry the diagram tie)
+        c["hist"] = hk
+        cases.append(c)
+    return cases
+
+
+def mode_of(name):
+    from pytreenet.time_evolution.time_evolution import TimeEvoMode
+    return {"expm": TimeEvoMode.EXPM, "default": TimeEvoMode.FASTEST, "RK45": TimeEvoMode.RK45, "RK23": TimeEvoMode.RK23,
+            "DOP853": TimeEvoMode.DOP853, "BDF": TimeEvoMode.BDF, "chebyshev": TimeEvoMode.CHEBYSHEV}[name]
+
+
+def hist_kwargs(case):
+    """the history / configuration fields of a case understood by record_run"""
+    return {"history": case.get("history"), "ops": case.get("ops"), "tratio": case.get("tratio")}
+
+
+def far_node(par, start):
+    """index of a node at maximal distance from `start` (ties: smallest index)"""
+    n = len(par)
+    adj = {i: [] for i in range(n)}
+    for i, p in enumerate(par):
+        if p is not None:
+            adj[i].append(p)
+            adj[p].append(i)
+    dist = {start: 0}
+    todo = [start]
+    while todo:
+        x = todo.pop(0)
+        for y in adj[x]:
+            if y not in dist:
+                dist[y] = dist[x] + 1
+                todo.append(y)
+    m = max(dist.values())
+    return min(i for i in dist if dist[i] == m), dist
+
+
 # =================================================================================================
 def _run_case(case):
     try:
         sysd = build_system(case)
         ob, _ = record_run(case["kind"], sysd, case.get("nsteps", 1), check_heff=True,
-                           capture_w=case.get("wcap", 3), wseed=case["seed"])
+                           mode=mode_of(case["mode"]) if case.get("mode") else None,
+                           capture_w=case.get("wcap", 3), wseed=case["seed"], **hist_kwargs(case))
         ob["dims"] = [sysd["dims"][i] for i in sysd["ids"]]
         ob["ttno_children_differ"] = any(list(sysd["ttno"].nodes[i].children) != list(sysd["ttns"].nodes[i].children)
                                          for i in sysd["ids"])
@@ -628,7 +816,13 @@ class C05(Prop):
             "depth ties; then random shapes), random states with shuffled legs and bond dimensions 1..3 (bonds larger than the space "
             "behind them => zero-padded after KEEP-mode QR), Hermitian and non-Hermitian random Hamiltonians, TTNO built on the "
             "state's tree or on a reference tree with another child order, each of the three classes, 1 or 2 steps. "
-            "non-trivial = at least one link/two-site update (always, >= 2 nodes); distinct by content")
+            "Configurations: every seventh case is constructed with a final time the time step does not divide (0.66 .. 7.14 dt; durations are "
+            "judged against the REQUESTED time step); a mode family runs each class in the ODE-solver modes RK45/RK23/DOP853/BDF and the "
+            "default / Chebyshev modes (two-site class: negative duration with forward=True). Histories on one object (trees 4..9 nodes, two "
+            "thirds with every bond >= 2): steps / reset_to_initial_state() / steps; evaluate_operators() between steps and the public run() "
+            "with single-site observables on leaves (one furthest from the sweep start) and a two-site product - H_eff against E^dagger H E "
+            "at every call of every step of the history, the reset's cache rebuild and the absence of schedule events while measuring are "
+            "part of the model tie. non-trivial = at least one link/two-site update (always, >= 2 nodes); distinct by content")
     clauses = [
         ("F", "for every tree with unique ids and >= 2 nodes the three traces are defined (C05_trace*_defined); one-site schemes: the signed Site "
               "factors of every node sum to 1 (C05_site_durations_first_order / _second_order); the total signed duration of a step is 1 for all "
@@ -674,13 +868,16 @@ class C05(Prop):
               "time_evolve, 1e-9 relative, for the sampled site, link and two-site calls (detects stale cache blocks, wrong leg permutations, "
               "swapped sides / swapped physical legs of the pair)"),
         ("V", "H_eff handed to time_evolve equals E^dagger H E (dense operator, embedding by differentiating the current dense state): "
-              "numerical oracle, relative tolerance 1e-9, at every call of every step (site, link and two-site)"),
+              "numerical oracle, relative tolerance 1e-9, at every call of every step (site, link and two-site), also after "
+              "reset_to_initial_state() and after observables were recorded on the live state; observed signed durations per node / edge "
+              "in units of the requested dt/2 in every evolution mode"),
     ]
     trusted_base = ["NumPy einsum/kron for the dense reference E^dagger H E (independent of the library's contraction code)",
                     "diagram level: NumPy tensordot/transpose implement g_tensordot/g_transpose of Contr/Heff.v (validated by the value tie); "
                     "equal diagrams denote equal tensors (Wire/Sem*.v, C02)",
                     "the verification hook at the top of time_evolve reports (psi, H_eff, duration, direction) faithfully",
-                    "monkey-patched wrappers (move to neighbour, cache add_entry, cache re-initialisation, link split/absorb) only log"]
+                    "monkey-patched wrappers (move to neighbour, cache add_entry, cache re-initialisation, link split/absorb) only log; "
+                    "the instance-level wrapper of run_one_time_step used to cut the log of the public run() at step boundaries only logs"]
     assumptions = ["trees with at least two nodes (second-order classes raise IndexError on a single node, as the model says)",
                    "state and TTNO have the same node identifiers and parent relation (children order may differ)"]
 
@@ -691,7 +888,28 @@ class C05(Prop):
         def extra(rng, j, par):
             return {"herm": j % 3 != 0, "coeffs": j % 4 == 1, "ttno_shuffle": j % 2 == 1,
                     "nsteps": 2 if (j % 5 == 0 and len(par) <= 6) else 1, "nterms": rng.choice([1, 2, 3, 4])}
-        return gen_tree_cases(rng, count, ["tdvp1", "tdvp2", "tdvp2s"], ctx.thorough(), extra)
+        cases = gen_tree_cases(rng, count, ["tdvp1", "tdvp2", "tdvp2s"], ctx.thorough(), extra)
+        kinds = ["tdvp1", "tdvp2", "tdvp2s"]
+        # CONFIGURATIONS: a final time that the time step does not divide (every seventh case); the durations are judged
+        # against the time step the caller asked for
+        for j, c in enumerate(cases):
+            if j % 7 == 3:
+                c["tratio"] = rng.choice(TRATIOS)
+        # CONFIGURATIONS: the ODE-solver evolution modes and the default (Chebyshev) mode for every class; in the two-site class
+        # the backward site updates are expressed as a NEGATIVE duration with forward=True.  H_eff and the signed durations
+        # do not depend on the accuracy of the solver
+        modes = ["RK45", "RK23", "DOP853", "BDF", "default", "chebyshev"]
+        mtrees = [p for p in SPECIAL_TREES if 3 <= len(p) <= 6]
+        for j in range(ctx.scale(18, 360) * budget_scale):
+            par = rng.choice(mtrees) if j % 3 else random_tree(rng, rng.choice([3, 4, 5, 6]))
+            c = {"par": par, "kind": kinds[j % 3], "seed": rng.randrange(10 ** 9), "mode": modes[(j // 3) % len(modes)],
+                 "nsteps": 2 if j % 4 == 0 else 1}
+            c.update(extra(rng, j, par))
+            c["nsteps"] = 2 if j % 4 == 0 else 1
+            cases.append(c)
+        # HISTORIES: run / reset / run and observables recorded between the steps, H_eff checked at every call of every step
+        cases += gen_history_cases(rng, ctx.scale(27, 540) * budget_scale, kinds, lambda rng, j, par: extra(rng, j, par))
+        return cases
 
     def nontrivial(self, case):
         return len(case["par"]) >= 2
@@ -705,6 +923,10 @@ class C05(Prop):
             c["ttno-other-child-order" if x.get("ttno_shuffle") else "ttno-same-tree"] += 1
             if x["par"][1:].count(0) == 1:
                 c["single-child-root"] += 1
+            c["mode=" + x.get("mode", "expm")] += 1
+            c["history=" + x.get("hist", "steps")] += 1
+            if x.get("tratio") is not None and x["tratio"] != int(x["tratio"]):
+                c["final-time-not-multiple-of-dt"] += 1
         return dict(c)
 
     def impl(self, ctx, cases):
